@@ -30,11 +30,28 @@ def stale_assign_blocks(fn, value):
     return out
 
 
+def notification_handlers(facts, ml):
+    """functions (closures or named fns) handed to NotificationDispatcher::on in main_loop: direct call-graph successors of
+    main_loop whose first parameter is the global state and that are not the request path"""
+    cg = facts.callgraph()
+    out = []
+    for fid in sorted(cg.get(ml.id, ())):
+        f = facts.fns[fid]
+        if not f.mir or f.mir['argc'] < 2:
+            continue
+        tys = [l['ty'] for l in f.mir['locals'][1:f.mir['argc'] + 1]]
+        first = tys[1] if f.kind == 'Closure' and len(tys) > 1 else tys[0]
+        if 'GlobalState' in first and 'Params' in ' '.join(tys) and not f.qname.startswith('oal_client::lsp::handlers::'):
+            out.append(f)
+    return out
+
+
 def r1_set_stale(c, facts):
     R = c.rule('C15.R1', 'SET-STALE: every mutating notification marks the state stale')
     ml = c.anchor(R, 'oal_lsp::main_loop')
+    handlers = notification_handlers(facts, ml)
     n = 0
-    for cl in facts.closures_of(ml):
+    for cl in handlers:
         muts = P.call_blocks(cl, *MUTATORS)
         folder_mut = [(b, t) for b, t in P.call_blocks(cl, 'HashMap::insert', 'HashMap::remove') if 'Folder' in (callee_of(t).get('self_ty') or '')]
         if not muts and not folder_mut:
@@ -43,20 +60,20 @@ def r1_set_stale(c, facts):
         sets = stale_assign_blocks(cl, '1')
         what = sorted({P.strip(callee_of(t)['def']).split('::')[-1] for b, t in muts + folder_mut})
         if sets and not P.success_return_reachable(cl, 0, sets):
-            c.ok(R, {'closure': cl.qname, 'mutates via': what, 'sets is_stale on every Ok path': True})
+            c.ok(R, {'handler': cl.qname, 'mutates via': what, 'sets is_stale on every Ok path': True})
         else:
             c.bad(R, '%s:stale-not-set' % '+'.join(what), 'the notification handler that calls %s can return Ok without setting is_stale: diagnostics and answers keep describing the old text (%s)' % (what, cl.loc()))
     c.floor(R, 'mutating notification handlers', n, 4)
-    # every notification kind the server declares is handled by a mutator: who-may-call of the Workspace mutators
+    hq = {h.qname for h in handlers}
     for m in MUTATORS:
         callers = set()
         for fn in facts.fns.values():
             if fn.mir and P.call_blocks(fn, m) and fn.crate in ('oal_lsp', 'oal_client'):
                 callers.add(fn.qname)
-        if all(q.startswith('oal_lsp::main_loop::{closure') for q in callers) and callers:
-            c.ok(R, {m: 'called only from notification closures', 'callers': sorted(callers)})
+        if callers and callers <= hq:
+            c.ok(R, {m: 'called only from notification handlers', 'callers': sorted(callers)})
         else:
-            c.bad(R, '%s:called-outside-notification-closures' % m, '%s is called from %s: a mutation outside the staleness protocol' % (m, sorted(callers)))
+            c.bad(R, '%s:called-outside-notification-closures' % m, '%s is called from %s: a mutation outside the staleness protocol' % (m, sorted(callers - hq)))
 
 
 def r2_refresh_first(c, facts):
